@@ -31,18 +31,29 @@ def log(*a):
 
 
 def build_harness():
-    """go test -c -tags verif of the harness module against /repo's current working tree."""
-    os.makedirs(BIN, exist_ok=True)
+    """go test -c -tags verif of the harness module against the repository's current working tree.
+    With VERIF_REPO set (evaluation of a seeded change in a scratch worktree) the harness is copied and
+    built in a private directory, so that several evaluations can run side by side."""
+    global BIN
     os.makedirs(WORK, exist_ok=True)
-    gomod = os.path.join(HARNESS, "go.mod")
+    src = HARNESS
+    if REPO != "/repo":
+        import hashlib
+        h = hashlib.sha1(REPO.encode()).hexdigest()[:10]
+        src = os.path.join(WORK, "alt", h, "harness")
+        BIN = os.path.join(WORK, "alt", h, "bin")
+        shutil.rmtree(src, ignore_errors=True)
+        shutil.copytree(HARNESS, src)
+    os.makedirs(BIN, exist_ok=True)
+    gomod = os.path.join(src, "go.mod")
     txt = open(gomod).read()
     txt2 = re.sub(r"replace github.com/element-of-surprise/coercion => .*", "replace github.com/element-of-surprise/coercion => " + REPO, txt)
     if txt2 != txt:
         open(gomod, "w").write(txt2)
-    shutil.copyfile(os.path.join(REPO, "go.sum"), os.path.join(HARNESS, "go.sum"))
+    shutil.copyfile(os.path.join(REPO, "go.sum"), os.path.join(src, "go.sum"))
     out = os.path.join(BIN, "harness.test")
     t0 = time.time()
-    p = subprocess.run(["go", "test", "-c", "-tags", "verif", "-o", out, "."], cwd=HARNESS, env=goenv(),
+    p = subprocess.run(["go", "test", "-c", "-tags", "verif", "-o", out, "."], cwd=src, env=goenv(),
                        stdout=subprocess.PIPE, stderr=subprocess.STDOUT, text=True)
     if p.returncode != 0:
         raise Infra("harness build failed:\n" + p.stdout[-4000:])
@@ -270,8 +281,11 @@ def match_finding(findings, prop, hit, ctx):
     return None
 
 
+OUTROOT = os.environ.get("VERIF_OUTROOT", VERIF)   # evidence/ and replays/ go here (redirected when evaluating seeded changes)
+
+
 def save_replay(prop, name, payload):
-    d = os.path.join(VERIF, "replays", prop)
+    d = os.path.join(OUTROOT, "replays", prop)
     os.makedirs(d, exist_ok=True)
     p = os.path.join(d, name)
     with open(p, "w") as f:
@@ -280,10 +294,10 @@ def save_replay(prop, name, payload):
 
 
 def write_evidence(prop, tier, seed, level, coverage, wall, violations, assumptions):
-    os.makedirs(os.path.join(VERIF, "evidence"), exist_ok=True)
+    os.makedirs(os.path.join(OUTROOT, "evidence"), exist_ok=True)
     ev = {"property_id": prop, "tier": tier, "seed": int(seed), "level": level, "coverage": coverage,
           "assumptions": assumptions, "wall_s": round(wall, 2), "violations": int(violations)}
-    with open(os.path.join(VERIF, "evidence", prop + ".json"), "w") as f:
+    with open(os.path.join(OUTROOT, "evidence", prop + ".json"), "w") as f:
         json.dump(ev, f, indent=1)
     return ev
 
